@@ -36,13 +36,14 @@ Definition new_set (p : spol) : aset :=
   {| a_idx := fun _ => SInit; a_lat := fun _ => None; a_entries := []; a_policy := p;
      a_best := None; a_best_lat := hour |}.
 
-(* the linear scans: strict <, first minimum wins, start value time.Hour *)
+(* the linear scans: the first candidate is always taken, later ones on strict <, first minimum wins
+   (start value time.Hour, only reported when there is no candidate) *)
 Fixpoint scan_min (excl : option nat) (es : list (nat * Z)) (acc : option nat * Z) : option nat * Z :=
   match es with
   | [] => acc
   | (d, l) :: r =>
       if onat_eqb (Some d) excl then scan_min excl r acc
-      else if l <? snd acc then scan_min excl r (Some d, l) else scan_min excl r acc
+      else if negb (is_some (fst acc)) || (l <? snd acc) then scan_min excl r (Some d, l) else scan_min excl r acc
   end.
 
 Definition tol_switch (tol cand cur : Z) : bool := (cand <=? cur) && ((cur <? tol) || (cand <=? cur - tol)).
@@ -137,7 +138,7 @@ Definition notify (c : cfg) (st : store) (t : ntype) (a : aset) (d : nat) (alive
                    a_entries := match a_idx a1 d with SAt i => set_nth i (d, sorting) (a_entries a1) | _ => a_entries a1 end;
                    a_policy := a_policy a1; a_best := a_best a1; a_best_lat := a_best_lat a1 |} in
       let a3 :=
-        if alive && tol_switch (c_tol c) sorting (a_best_lat a2) then set_best a2 (Some d) sorting
+        if alive && (negb (is_some (a_best a2)) || tol_switch (c_tol c) sorting (a_best_lat a2)) then set_best a2 (Some d) sorting
         else if onat_eqb (a_best a2) (Some d) then
           let a2' := set_best a2 (a_best a2) sorting in
           if negb alive || (bak_lat <? sorting) then
@@ -150,7 +151,7 @@ Definition notify (c : cfg) (st : store) (t : ntype) (a : aset) (d : nat) (alive
         else [false] in
       (a3, cb1 ++ cb2)
   | None =>
-      if alive && minp && negb (is_some (a_best a1)) then (set_best a1 (Some d) (a_best_lat a1), cb1)
+      if alive && minp && negb (is_some (a_best a1)) then (set_best a1 (Some d) (a_best_lat a1), cb1 ++ [true])
       else (a1, cb1)
   end.
 
